@@ -9,7 +9,14 @@ TInit == params = Fresh /\ fitted = FALSE /\ l = 1 /\ st = "reset"
 Reset == st = "reset" /\ l <= Len(Trace) /\ params' = Fresh /\ fitted' = FALSE /\ st' = "run" /\ UNCHANGED l
 NextSt(k) == IF k > Len(Trace) THEN "end" ELSE IF Trace[k].i = 1 THEN "reset" ELSE "run"
 \* restriction of the expected parameter vector to the names the event tracks
-Sees(e, p) == \A n \in DOMAIN e.obs.params : n \in Names /\ e.obs.params[n] = p[n]
+SeesOwn(e, p) == \A n \in DOMAIN e.obs.params : n \in Names /\ e.obs.params[n] = p[n]
+\* sibling isolation: events that carry a sibling observation (dynamic ones) are judged on it as well
+SeesSib(e, p) == "sib" \in DOMAIN e.obs =>
+                    /\ \A n \in DOMAIN e.obs.sib : n \in Names /\ e.obs.sib[n] = SibParams(p)[n]
+                    /\ ~e.obs.sibfitted /\ e.obs.sibstate
+\* get_params(deep=True) is the closure of get_params(deep=False) under <component>__<parameter>
+DeepOk(e) == "deepok" \in DOMAIN e.obs => e.obs.deepok
+Sees(e, p) == SeesOwn(e, p) /\ DeepOk(e) /\ (e.op \in {"clone", "clone_fitted"} \/ SeesSib(e, p))
 Act(e) ==
     CASE e.op = "construct" -> UNCHANGED evars /\ Sees(e, params) /\ e.obs.rej = "" /\ ~e.obs.fitted
       [] e.op = "get" -> GetParams /\ Sees(e, params) /\ e.obs.rej = ""
